@@ -5,10 +5,14 @@ import (
 	"flag"
 	"fmt"
 	"os"
+	"runtime/debug"
 	"strings"
 )
 
 func main() {
+	// a cycle in a damaged structure shows up as runaway recursion or allocation: fail fast instead of after a gigabyte
+	debug.SetMaxStack(48 << 20)
+	debug.SetMemoryLimit(6 << 30)
 	mode := flag.String("mode", "tree", "tree | multi | replay | node | fn | codec | alias | mem | race | gc")
 	seed := flag.Int64("seed", 1, "PRNG seed")
 	fams := flag.String("families", strings.Join(families, ","), "kind families")
